@@ -247,6 +247,7 @@ def parse_rvalue(s):
     s = s.strip()
     if s.startswith("no_retag "): s = s[9:]
     if s.startswith("&"):
+        if s.startswith("&raw const (fake) "): return ("ref", parse_place(s[18:]), False)
         if s.startswith("&raw const "): return ("ref", parse_place(s[11:]), False)
         if s.startswith("&raw mut "): return ("ref", parse_place(s[9:]), True)
         if s.startswith("&fake shallow "): return ("ref", parse_place(s[14:]), False)
@@ -497,7 +498,7 @@ def parse_file(path, crate, stable_path=None):
             f.is_const = True
             f.ret = ty.strip()
             f.header = head
-        for mm in re.finditer(r"^    (?:let (?:mut )?)(_\d+): (.+?);$", rest, re.M):
+        for mm in re.finditer(r"^\s+(?:let (?:mut )?)(_\d+): (.+?);$", rest, re.M):
             f.locals[mm.group(1)] = mm.group(2).strip()
         for mm in re.finditer(r"^    (bb\d+)(?: \(cleanup\))?: \{\n(.*?)^    \}", rest, re.S | re.M):
             lines, cur = [], None
